@@ -6,6 +6,8 @@ import (
 	"os"
 	"path/filepath"
 	"runtime"
+	"runtime/debug"
+	"strings"
 	"sync"
 	"time"
 
@@ -111,4 +113,25 @@ func newNetworkSimple(tr *sim.Transport, delay time.Duration) (*network.Driver, 
 	}
 	return network.NewDriver("sim", options.WithCustomTransport(tr), options.WithReadDelay(delay),
 		options.WithTimeoutOps(2*time.Second), options.WithPrivilegeLevels(pl), options.WithDefaultDesiredPriv("privilege-exec"))
+}
+
+// recoverCase turns a panic that escapes into the caller's goroutine while a case runs into a
+// reported failure of that case (the property texts say "never panics"); the replay is the case.
+func recoverCase(id string, replay interface{}) {
+	if r := recover(); r != nil {
+		prop := id
+		if i := strings.IndexByte(id, '-'); i > 0 {
+			prop = id[:i]
+		}
+		st := string(debug.Stack())
+		where := ""
+		for _, ln := range strings.Split(st, "\n") {
+			if strings.Contains(ln, "/repo/") {
+				where = strings.TrimSpace(ln)
+				break
+			}
+		}
+		emit(&Case{ID: id, Kind: "panic", Oracle: fmt.Sprintf("panic in the caller's goroutine: %v at %s", r, where),
+			Sig: prop + ":panic", Replay: replay})
+	}
 }
